@@ -787,13 +787,38 @@ def has_side_effect(node: ast.AST, safe_callable_whitelist: Collection[str] = fr
 
 
 @functools.lru_cache(maxsize=100)
+def split_lines(source: str) -> Sequence[str]:
+    """Split source code into lines the way the python tokenizer does, keeping the line endings.
+
+    Unlike str.splitlines(), this does not split on form feeds, unicode line separators etc, so
+    the result can be indexed with the line numbers of ast nodes.
+    """
+    return tuple(re.findall(r"[^\r\n]*(?:\r\n|\r|\n)|[^\r\n]+", source))
+
+
+@functools.lru_cache(maxsize=100)
 def _get_line_start_charnos(source: str) -> Sequence[int]:
     start = 0
     charnos = []
-    for line in source.splitlines(keepends=True):
+    for line in split_lines(source):
         charnos.append(start)
         start += len(line)
     return tuple(charnos)
+
+
+def _get_charno(source: str, lineno: int, col_offset: int) -> int:
+    """Character number of a (lineno, col_offset) position of an ast node.
+
+    The column offsets of ast nodes count utf-8 bytes, not characters.
+    """
+    line_start_charnos = _get_line_start_charnos(source)
+    lines = split_lines(source)
+    line = lines[lineno - 1] if lineno <= len(lines) else ""
+    if line.isascii():
+        return line_start_charnos[lineno - 1] + col_offset
+
+    character_offset = len(line.encode("utf-8")[:col_offset].decode("utf-8", errors="ignore"))
+    return line_start_charnos[lineno - 1] + character_offset
 
 
 class Range(NamedTuple):
@@ -877,7 +902,6 @@ def get_charnos(node: ast.AST, source: str, keep_first_indent: bool = False) -> 
     Returns:
         Tuple[int, int]: start, end
     """
-    line_start_charnos = _get_line_start_charnos(source)
     if match_template(node, ast.AST(decorator_list=list)) and node.decorator_list:
         start = min(node.decorator_list, key=_get_position)
     else:
@@ -886,11 +910,11 @@ def get_charnos(node: ast.AST, source: str, keep_first_indent: bool = False) -> 
     start_position = _get_position(start)
     node_position = _get_position(node)
 
-    start_charno = line_start_charnos[start_position.lineno - 1] + start_position.col_offset
+    start_charno = _get_charno(source, start_position.lineno, start_position.col_offset)
     if getattr(node, "end_lineno", None) is None:
         return Range(start_charno, start_charno)
 
-    end_charno = line_start_charnos[node_position.end_lineno - 1] + node_position.end_col_offset
+    end_charno = _get_charno(source, node_position.end_lineno, node_position.end_col_offset)
 
     code = source[start_charno:end_charno]
     if code and code[0] == " ":
